@@ -76,11 +76,11 @@ def run(chk):
         if not ok2:
             raise RuntimeError("harness does not build even without hooks: " + blog2[-600:])
     else:
-        dis, stats, sample = bufcorr.run(chk, binp, 1500 if thorough else 400, tag="c02buf")
+        dis, stats, sample = bufcorr.run(chk, binp, 4000 if thorough else 400, tag="c02buf")
         chk.note("buffer_correspondence", stats)
         chk.add_eval(stats["steps"], stats["steps_followed_by_model"])
         chk.sample({"buffer_op_sequence": sample})
-    fl, summary, crashed = e2e.run(chk, binp, "C02", 60000 if thorough else 6000)
+    fl, summary, crashed = e2e.run(chk, binp, "C02", 600000 if thorough else 6000)
     chk.note("search", summary)
     chk.add_eval(summary.get("evaluations", 0), summary.get("nontrivial", 0))
     if crashed:
